@@ -2,7 +2,10 @@
 use std::fmt;
 use std::num::NonZeroUsize;
 use std::panic::{RefUnwindSafe, UnwindSafe};
+#[cfg(not(may_verif))]
 use std::sync::atomic::{AtomicBool, AtomicUsize, Ordering};
+#[cfg(may_verif)]
+use crate::verif::atomic::{AtomicBool, AtomicUsize, Ordering};
 use std::sync::mpsc::{RecvError, SendError, TryRecvError};
 use std::sync::Arc;
 use std::thread::Thread;
@@ -108,6 +111,8 @@ impl Blocker {
             get_scheduler().schedule(co);
         } else {
             let thread = self.into_thread();
+            #[cfg(may_verif)]
+            crate::verif::thread_unpark(&thread);
             thread.unpark();
         }
     }
@@ -170,6 +175,8 @@ impl<T> InnerQueue<T> {
                     match self.try_recv() {
                         Err(TryRecvError::Empty) => {
                             // no data, wait for it
+                            #[cfg(may_verif)]
+                            crate::verif::thread_park(None);
                             std::thread::park();
                         }
                         data => {
